@@ -1,5 +1,5 @@
 """Mapping property -> rules, with the explanation that goes into the evidence."""
-from .rules import (tree_rules, order_rules, opt_rules, gram_rules, driver_rules, writer_rules, edit_rules,
+from .rules import (generic_rules, tree_rules, order_rules, opt_rules, gram_rules, driver_rules, writer_rules, edit_rules,
                     head_rules, reader_rules, extra_rules)
 
 RULES = {
@@ -57,6 +57,10 @@ RULES = {
     'R-OPTSIDE': driver_rules.r_optside,
     'R-PAIRUSE': gram_rules.r_pairuse,
     'R-PERTREE': driver_rules.r_pertree,
+    'R-SUBSTR': generic_rules.r_substr,
+    'R-DEADCHECK': generic_rules.r_deadcheck,
+    'R-FALSYZERO': generic_rules.r_falsyzero,
+    'R-DICTCOMP': generic_rules.r_dictcomp,
 }
 
 
@@ -362,6 +366,38 @@ PROPS = {
                        'over all strings.',
     },
 }
+
+# generic misuse patterns (ttsa/rules/generic_rules.py) are looked for in the functions each property is anchored in
+GENERIC = ['R-SUBSTR', 'R-DEADCHECK', 'R-FALSYZERO', 'R-DICTCOMP']
+PROP_SITES = {
+    'C01': ('treeinput.', 'trees.parse_label', 'misc.'),
+    'C02': ('treeoutput.', 'trees.get_label', 'treeanalysis.gap'),
+    'C03': ('transform.run', 'treeinput.', 'treeoutput.', 'misc.'),
+    'C04': ('transform.', 'trees.'),
+    'C05': ('transform.boyd_split', 'transform.raising', 'transform.negra_mark_heads', 'transform.mark_heads_by_rules',
+            'transformconst.'),
+    'C06': ('grammar.extract', 'treeanalysis.', 'grammaranalysis.', 'trees.terminal'),
+    'C07': ('grammar.',),
+    'C08': ('grammar.', 'grammaroutput.'),
+    'C09': ('grammaroutput.', 'grammarinput.', 'grammaranalysis.', 'grammar.run', 'grammarconst.'),
+    'C10': ('transitions.', 'transitionoutput.'),
+    'C11': EDITORS,
+    'C12': ('transform.root_attach', 'trees.'),
+    'C13': PUNCT,
+    'C14': ('transform.binarize', 'transform._binarize', 'transform.collapse', 'transform._collapse',
+            'transform.uncollapse', 'transform._uncollapse'),
+    'C15': ('transform.negra_mark_heads', 'transform.mark_heads_by_rules', 'transformconst.'),
+    'C16': ('treeanalysis.', 'grammaranalysis.', 'trees.terminal_blocks'),
+    'C17': ('treeoutput.parse_split_specification', 'transform.run', 'misc.'),
+    'C18': ('',),
+    'C19': ('trees.', 'treeoutput.compute_export_numbering'),
+    'C20': ('trees.',),
+}
+for _pid, _p in PROPS.items():
+    _p.setdefault('filter', {})
+    for _g in GENERIC:
+        _p['rules'].append(_g)
+        _p['filter'][_g] = either(site('package'), site(*PROP_SITES[_pid]))
 
 for _p in PROPS.values():
     _p.setdefault('filter', {})
